@@ -448,3 +448,9 @@ Definition apply_keep (o : op) (st : est) : est :=
 Definition run_ops (ops : list op) (st : est) : est := fold_left (fun s o => apply_keep o s) ops st.
 
 End Est.
+
+(* an instance with exact integer "arithmetic", used for examples only *)
+Definition z_ops : Ops Z := {|
+  f0 := 0; f1 := 1; fm1 := -1; fn0 := 0; f2 := 2; f3 := 3;
+  fadd := Z.add; fsub := Z.sub; fmul := Z.mul; fdiv := Z.div;
+  fsqrt := Z.sqrt; fmid := fun a b => (a + b) / 2; fdt := fun d => d |}.
